@@ -2,7 +2,7 @@
    The heap model faults (returns None) on any access to an unallocated or freed node and on reading a
    payload that was moved out; every theorem below therefore includes "does not fault". The aliasing
    model of Rust is outside the model (DESIGN.md 6). *)
-Require Import LruV.B.TakingB LruV.B.RiCheckSound LruV.B.RiCheck LruV.B.OpsProps.
+Require Import LruV.B.TakingB LruV.B.RiCheckSound LruV.B.RiCheck LruV.B.OpsProps LruV.B.StepB LruV.B.RefineLemmas LruV.B.RefineB LruV.B.ReachB LruV.A.InvA.
 
 (* RI h seal l (B/RepB.v): seal :: l are distinct allocated nodes, following next from the seal visits l and
    returns to the seal, prev mirrors next, every listed bucket owns a live key/value, the seal owns none. *)
@@ -60,6 +60,21 @@ Theorem C07_b_moves : forall pairs h seal l,
              (forall a, In a (map fst pairs) -> gh g' a = None).
 Proof. exact b_moves_chain. Qed.
 
+(* EVERY public operation, composed at pointer level as src/lib.rs composes it (B/StepB.v: lookups scan the listed
+   buckets, eviction victims are read from seal.prev, retain walks the prev links, iterators run as cursors, drain
+   detaches the nodes and moves the pairs out, the bucket a new entry lands in and the targets of a rebuild are
+   whatever hashbrown chose — checked, not assumed): started on a coherent structure whose keys are unique it never
+   faults into incoherence — it ends in a coherent structure with the same seal — and its result, its events and the
+   abstraction of its final state are exactly Layer A's. `stepB = Some` excludes the faults (access to a freed or
+   unallocated node, reading a moved-out payload, 64-bit overflow), which the correspondence reports separately. *)
+Theorem C07_public_ops_refine : forall E VS b p oB b' o evs, RIb b -> KU b -> stepB E VS b p oB = Some (b', o, evs) ->
+  stepA E VS fixed (absB b) p (ob oB) = Some (absB b', o, evs) /\ RIb b' /\ gseal (bg b') = gseal (bg b).
+Proof. exact stepB_refines. Qed.
+(* ... and therefore every state reachable from new / with_capacity by any sequence of operations under any oracle
+   is coherent, and its abstraction is a reachable state of Layer A: all of Layer A's theorems speak about it *)
+Theorem C07_reachable_coherent : forall E VS, 0 < E -> VS <= E -> forall b, ReachB E VS b -> RIb b /\ Reach E VS (absB b).
+Proof. exact reachB_sound. Qed.
+
 (* the monitor evaluated on the implementation's snapshot is sound for the structural part of RI *)
 Theorem C07_monitor_sound : forall g, ri_check g = true ->
   let l := map oaddr (g_nodes g) in
@@ -86,6 +101,30 @@ Qed.
 Example C07_example_touch : exists h', touch_ptr ex_heap 100 3 = Some h' /\ nextof h' 100 = Some 3 /\ nextof h' 3 = Some 1 /\ prevof h' 100 = Some 2.
 Proof. eexists. split; [vm_compute; reflexivity|]. repeat split; vm_compute; reflexivity. Qed.
 
+(* non-vacuity of the refinement: a concrete run of the pointer-level operations from an empty cache (two insertions with
+   a table rebuild, a get that re-links, an eviction by a third insertion, a drain) succeeds and ends coherent *)
+Definition ex_k (i : N) : key := {| kid := i; ktok := 10 + i; kheap := 0 |}.
+Definition ex_v (i : N) : val := {| vtok := 20 + i; vtag := i; vheap := 0 |}.
+Definition ex_o (a : addr) (mv : list (addr * addr)) : oracleB := {| ob := {| o_tomb := 0; o_reuse := false; o_alloc := true |}; ob_addr := a; ob_moves := mv |}.
+Fixpoint ex_run (b : bstate) (l : list (op * oracleB)) : option (bstate * list out) :=
+  match l with
+  | [] => Some (b, [])
+  | (p, o) :: r => match stepB 72 24 b p o with
+                   | Some (b', out, _) => match ex_run b' r with Some (b'', outs) => Some (b'', out :: outs) | None => None end
+                   | None => None
+                   end
+  end.
+Example C07_example_run :
+  exists b0 b1 outs, new_b 72 100 150 0 = Some b0 /\ ReachB 72 24 b0 /\
+    ex_run b0 [(Insert (ex_k 1) (ex_v 1), ex_o 1 []); (Insert (ex_k 2) (ex_v 2), ex_o 2 []); (Get 1, ex_o 0 []);
+               (Insert (ex_k 3) (ex_v 3), ex_o 3 []); (IterOp [true; false; true], ex_o 0 [])] = Some (b1, outs) /\
+    map (fun e => kid (ek e)) (ents (absB b1)) = [1; 3] /\ glist (bg b1) = [3; 1] /\
+    outs = [OInsOk None; OInsOk None; OVal (Some (ex_v 1)); OInsOk None; OItems [Some (ex_k 1, ex_v 1); Some (ex_k 3, ex_v 3); None]].
+Proof.
+  eexists _, _, _. split; [vm_compute; reflexivity|]. split; [apply (reachb_new 72 24 100 150 0); vm_compute; reflexivity|].
+  split; [vm_compute; reflexivity|]. repeat split; vm_compute; reflexivity.
+Qed.
+
 Print Assumptions C07_unhinge.
 Print Assumptions C07_set_head.
 Print Assumptions C07_touch.
@@ -95,4 +134,6 @@ Print Assumptions C07_b_touch.
 Print Assumptions C07_b_remove.
 Print Assumptions C07_b_insert_new.
 Print Assumptions C07_b_moves.
+Print Assumptions C07_public_ops_refine.
+Print Assumptions C07_reachable_coherent.
 Print Assumptions C07_monitor_sound.
